@@ -722,6 +722,16 @@ def check_detach(ctx) -> None:
 
 
 def check_foreign_copy_guard(ctx) -> None:
+    """Whose metabolite object a reaction ends up holding is decided by evaluating add_metabolites on stand-in models
+    (genesform.check_metabolite_adoption); the reading of the copy guard's shape only explains."""
+    from . import genesform
+
+    n0, d0 = len(ctx.findings), len(ctx.deferred)
+    ctx.guard(genesform.check_metabolite_adoption, ctx, "C12.detach")
+    ctx.explain(len(ctx.findings) > n0 or len(ctx.deferred) > d0, _copy_guard_reading, ctx)
+
+
+def _copy_guard_reading(ctx) -> None:
     """add_metabolites: a Metabolite object is copied iff it belongs to a model that is not the
     reaction's model - evaluated for every attachment case."""
     prog = ctx.prog
